@@ -500,6 +500,10 @@ func (hs *serverHandshakeState) checkForResumption() bool {
 	if hs.sessionState == nil || hs.sessionState.vers > hs.clientHello.vers {
 		return false
 	}
+	// Never resume a session for a different protocol version.
+	if hs.sessionState.vers != c.vers {
+		return false
+	}
 	if vers, ok := c.config.mutualVersion(hs.sessionState.vers); !ok || vers != hs.sessionState.vers {
 		return false
 	}
